@@ -190,6 +190,28 @@ MINE = {
  "C18-i": ("missed", "field_examples texts of whole numbers between 2^63 and 2^64 and at the int64 edges"),
  "C19-i": ("missed", "a third rule package that reaches sebuf's and buf.validate's option files only through an umbrella file with import public"),
  "C20-i": ("missed", "nested types with examples used from a sibling nested type, from an unrelated message and as a map value; an absent JSON member counts as the kind's default"),
+
+ # ---- round j (invocation / run-time environment C01-C10, interplay of two features C11-C20)
+ "C01-j": ("missed", "the decoy twin keeps the SERVICE names as well (two API versions declaring the same Service.Method in one invocation), for every generator but openapiv3"),
+ "C02-j": ("missed", "body variants chunked-empty / chunked-empty-protobuf: no body bytes under Transfer-Encoding: chunked, written on the wire by the driver"),
+ "C03-j": ("missed", "all routing files through ONE openapiv3 invocation under GOMAXPROCS 2, 3, 4 and 7: every service's document must be the one its own invocation gave; 3/5/7 services per invocation in the shared corpus, repeats under GOMAXPROCS 1-7"),
+ "C04-j": ("missed by C04 (needs generate_mock=true in a multi-file invocation: caught by C15's parameter x order variations)", ""),
+ "C05-j": ("caught as built", ""),
+ "C06-j": ("missed (a wrapper type in ANOTHER Go package that is not part of the invocation; the arrangement was tried in c04split and withdrawn: types-only packages do not build on the unchanged tree for a reason of their own)", ""),
+ "C07-j": ("caught as built", ""),
+ "C08-j": ("missed by C08 (one invocation per file of a package: caught by c04split under C04, C05 and C14)", ""),
+ "C09-j": ("missed", "same-named decoy services (see C01-j): header declarations cached by service and method name are poisoned by the twin"),
+ "C10-j": ("missed", "the hook-less registration runs once more AFTER a registration that passed a hook, in the same process"),
+ "C11-j": ("missed", "mutation two-members-of-one-oneof; oneof features whose variant types carry codecs of their own; every oneof feature in both tiers"),
+ "C12-j": ("missed", "flatten collisions between fields with DIFFERENT prefixes (prefixed vs unprefixed in both orders, two different prefixes)"),
+ "C13-j": ("caught as built (through a side effect); streaming RPCs in every position are now in the build catalogue and in C16's shapes", ""),
+ "C14-j": ("missed", "empty_behavior on google.protobuf.Timestamp fields (found a genuine defect on the way, recorded: NULL cannot be decoded back)"),
+ "C15-j": ("missed", "versions/v0-v1-with-headers: two versions of a service with service- and method-level headers in one invocation"),
+ "C16-j": ("missed", "examples-by-kind joined the shared corpus (C15/C16/C18) with zero-led digit strings as field examples, header examples and string.in members"),
+ "C17-j": ("caught as built", ""),
+ "C18-j": ("missed", "param-name-in-two-locations: a field that is a query filter on the collection route and the path variable of the item route, a header named like a query parameter"),
+ "C19-j": ("missed", "every message with a required scalar field is also the body of a PUT route that binds the field to a path variable"),
+ "C20-j": ("caught as built", ""),
 }
 
 
